@@ -92,12 +92,17 @@ def _refine(pred, k, outcome):
     if pred[0] == "truth":
         return ("truth", outcome == pred[-1])
     if pred[0] == "is" and outcome == pred[-1]:
-        return ("val", pred[1])
+        return _val(pred[1])
     return k
 
 
+def _val(c):
+    """Knowledge `the flag is the constant c` (tagged with the type: 1 and True, 0 and False are different values under `is`)."""
+    return ("val", c, type(c).__name__)
+
+
 def _const_knowledge(e):
-    return ("val", e.value) if isinstance(e, ast.Constant) and (e.value is None or isinstance(e.value, (bool, int, str))) else None
+    return _val(e.value) if isinstance(e, ast.Constant) and (e.value is None or isinstance(e.value, (bool, int, str))) else None
 
 
 def _stores(node, F):
